@@ -209,4 +209,43 @@ class C04d(C15f):
     title = 'attribute sources: the class MRO used for "obj." completion lists the class and every ancestor exactly once'
 
 
-OBLIGATIONS = [C04a, C04b, C04c, C04d]
+import io  # noqa: E402
+import tokenize  # noqa: E402
+
+import jedi  # noqa: E402
+
+FRAGMENT_CORPUS = [
+    'import os\nvalue = not flag\nfor item in items:\n    if item is None or item.attr:\n        return_code = item\n'
+    'def func(arg):\n    return arg and func\nclass Klass: pass\n',
+]
+
+
+class C04e(Obligation):
+    id = 'C04.e'
+    title = 'the completion fragment is exactly the part of the identifier OR keyword in front of the cursor'
+    pattern = 'P4 concrete tree x symbolic cursor; reference from CPython tokenize'
+    interpret_modules = ('jedi', 'parso', 'obligations')
+    loop_bound = 400
+    max_paths = 6000
+    assumptions = ('a valid corpus file with identifiers and keywords; the cursor is symbolic, inside or directly behind a '
+                   'NAME token (tokenize counts keywords as NAME); helpers.get_on_completion_name is interpreted',)
+
+    def scenario(self, ctx, cfg):
+        src = FRAGMENT_CORPUS[0]
+        script = jedi.Script(src)
+        toks = [(t.start[0], t.start[1], t.end[1], t.string)
+                for t in tokenize.generate_tokens(io.StringIO(src).readline) if t.type == tokenize.NAME]
+        line = ctx.int('line')
+        column = ctx.int('column')
+        ctx.assume(ctx.Or(*[ctx.And(line == l, c0 < column, column <= c1) for l, c0, c1, s in toks]))
+        out = ctx.call(helpers.get_on_completion_name, script._module_node, script._code_lines, (line, column))
+        ctx.check(out.exc is None, 'never raises')
+        if out.exc is not None:
+            return
+        got = out.value
+        wrong = [ctx.And(line == l, column == c0 + k)
+                 for l, c0, c1, s in toks for k in range(1, len(s) + 1) if s[:k] != got]
+        ctx.check(ctx.Not(ctx.Or(*wrong)) if wrong else True, 'fragment == the token text up to the cursor')
+
+
+OBLIGATIONS = [C04a, C04b, C04c, C04d, C04e]
